@@ -408,6 +408,42 @@ def rule_floating_search(ctx) -> None:
         chk.decide(ok, "C14.floating-search", fn.qual, "the candidate is checked on binary[offset:] (no upper bound)", f"header check sees `{norm(a) if a is not None else None}`: a header longer than the window is reported as missing", "binary[offset:]", A.loc(AI, c))
 
 
+def rule_padding_predicate(ctx) -> None:
+    """C14.padding-predicate: a segment is taken for absent ("padding only") exactly when its first SIZE bytes are ONE of the fill
+    patterns throughout - all 0x00 or all 0xFF.  A supplied segment whose bytes merely consist of fill bytes in some mix (a half-erased
+    key store, one 0xFF among zeros) is content and must parse back.  Segment._is_padding is evaluated on model blocks."""
+    fn = ctx.own(SEG, "Segment", "_is_padding")
+    k = ctx.cls(SEG, "Segment")
+    pats = ctx.prog.fold(k.consts.get("IMAGE_PATTERNS"), k.module, k) if "IMAGE_PATTERNS" in k.consts else None
+    if not isinstance(pats, (list, tuple)) or not pats:
+        raise AnalysisError("C14.padding-predicate: Segment.IMAGE_PATTERNS does not fold")
+    fills = {"zeros": 0x00, "ones": 0xFF}
+    if any(p_ not in fills for p_ in pats):
+        raise AnalysisError(f"C14.padding-predicate: unknown fill pattern in {pats}")
+
+    def leaves(c: ast.Call, ev):
+        if isinstance(c.func, ast.Attribute) and c.func.attr == "get_block" and isinstance(c.func.value, ast.Call) and norm(c.func.value.func) == "BinaryPattern" and len(c.args) == 1:
+            return bytes([fills[ev.ev(c.func.value.args[0])]]) * ev.ev(c.args[0])
+        return ordereval.NOT_MODELLED
+    probs = []
+    n = 0
+    par = fn.params()[1] if len(fn.params()) > 1 else fn.params()[0]
+    for size in (0, 1, 4):
+        for block in (bytes(4), b"\xff" * 4, b"\x00\xff\x00\xff", b"\x00\x00\x00\xff", b"\xff\x00\x00\x00", b"\x00\x01\x00\x00", b"\x12\x34\x56\x78", bytes(4) + b"\x55" * 4, b"\xff" * 4 + bytes(4)):
+            cls_obj = Obj(_cls=k, SIZE=size, IMAGE_PATTERNS=tuple(pats))  # (class-tagged: its own SIZE wins over the folded Segment.SIZE)
+            try:
+                out = ordereval.Evaluator({"cls": cls_obj, par: block}, ctx.fold_sym(fn), opaque_return=False, call_value=leaves).run(A.body_of(fn.node))
+            except ordereval.Unsupported as ex:
+                raise AnalysisError(f"C14.padding-predicate: {fn.qual} left the fragment: {ex}")
+            n += 1
+            head = block[:size]
+            want = size > 0 and any(head == bytes([fills[p_]]) * size for p_ in pats)
+            if out.kind != "return" or bool(out.value) != want:
+                probs.append(f"SIZE {size}, block {block.hex()}: {out.kind} {out.value!r}, expected {want}")
+    ctx.chk.exhaustive_rules.add("C14.padding-predicate")
+    ctx.chk.decide(not probs, "C14.padding-predicate", fn.qual, f"padding = the first SIZE bytes are one fill pattern throughout ({n} model blocks)", "; ".join(probs[:3]), "all 0x00 or all 0xFF", A.loc(SEG, fn.node))
+
+
 def run(ctx) -> None:
     ctx.chk.explain("C14: all (family, revision, memory type) segment tables of the database are linted against the Segment class model reconstructed from the AST (names resolve, "
                     "static offsets increase in declaration order, fixed-size segments end before the next one, an application container exists, patterns valid); the dynamic "
@@ -420,6 +456,7 @@ def run(ctx) -> None:
     ctx.rule(rule_raw_bytes)
     ctx.rule(rule_parse_fallthrough)
     ctx.rule(rule_floating_search)
+    ctx.rule(rule_padding_predicate)
     ctx.chk.assumptions = ["segment payload parsers are decided by their own properties (C01/C06/C07/C12)", "BinaryImage composition is decided in C16",
                            "not decided: byte equality after parse, floating-segment search inside binaries"]
 
